@@ -469,9 +469,18 @@ contains
     integer :: n
     n = len(t)
   end function lenof
+  subroutine l3(n, flag, x)
+    integer, intent(in) :: n
+    logical, intent(in), optional :: flag
+    integer, intent(in), optional :: x
+  end subroutine l3
+  subroutine q3(x, k, flag)
+    integer, intent(in) :: x, k
+    logical, intent(in) :: flag
+  end subroutine q3
 end module sm
 """
-SIGS = {"s3": ["a", "b", "c"], "f3": ["p", "q", "r"], "g2": ["u", "v"], "lenof": ["t"]}
+SIGS = {"s3": ["a", "b", "c"], "f3": ["p", "q", "r"], "g2": ["u", "v"], "lenof": ["t"], "l3": ["n", "flag", "x"], "q3": ["x", "k", "flag"]}
 CALLS = [
     "  call s3(1, 2, 3)",
     "  call s3(k, c=3)",
@@ -488,6 +497,14 @@ CALLS = [
     "  k = f3(lenof(\"can't\"), 2, 3)",
     "  k = f3(1, lenof('say \"hi'), r=3)",
     "  k = g2(lenof('it''s'), lenof(\"a\"\"b'c\"))",
+    # relational operators spelled with '=' inside the value of a keyword argument, and in a positional argument whose
+    # left operand is spelled like a dummy argument (k == 2 is not the keyword k)
+    "  call l3(2, x = k, flag = k /= 2)",
+    "  call l3(2, flag = k == 2, x = 1)",
+    "  call l3(2, flag = k <= 2)",
+    "  call l3(x = 1, flag = k >= 2, n = 3)",
+    "  call q3(1, 2, k == 2)",
+    "  call q3(1, 2, k /= 1)",
 ]
 
 
@@ -522,7 +539,7 @@ def reference_signature(line, col):
         i += 1
     for callee, idx, cur in reversed(stack):
         if callee in SIGS:
-            m = re.match(r"\s*(\w+)\s*=", cur)
+            m = re.match(r"\s*(\w+)\s*=(?!=)", cur)
             if m and m.group(1) in SIGS[callee]:
                 idx = SIGS[callee].index(m.group(1))
             elif idx > 0 and _earlier_keyword(line, col, callee):
